@@ -1,5 +1,7 @@
 package bigbuff
 
+import "sync"
+
 // Support code shared by the engine and the native replay (ordinary Go).
 
 // vtok is the opaque payload type used for interface{} values in harnesses.
@@ -26,3 +28,5 @@ func verifPanics(f func()) (p bool) {
 // verifCall0 is the body of a goroutine started with `go f()` where f is a modelled function value
 // (e.g. a context.CancelFunc).
 func verifCall0(f func()) { f() }
+
+func newCondFor(l sync.Locker) *sync.Cond { return sync.NewCond(l) }
